@@ -194,6 +194,43 @@ def oneshot_task(task):
     return acc
 
 
+HEADERS = [1, 6, 500, 1008, 1009, 1013, 1014, 1020, 2027]
+
+
+def header_task(task):
+    """the blocker wraps a file that already holds something (a header the caller wrote first): what the blocker
+    adds AFTER it must still be the blocked form of the bytes written - the block grid is the blocker's, not the
+    file's"""
+    from cardutil.mciipm import Block1014
+    acc = core.Acc()
+    data = pay('pos')
+    for L in range(task['lo'], task['hi']):
+        for h in HEADERS:
+            for split in (0, 1, 2):
+                for how in (('finalise',) if split else ('finalise', 'close', 'seek0')):
+                    case = {'header': h, 'len': L, 'split': split, 'how': how, 'seed': _SEED}
+                    acc.case(('header', h, L, split, how), nontrivial=True, outcome='header')
+                    try:
+                        f = CapIO()
+                        f.write(b'H' * h)
+                        b = Block1014(f)
+                        cuts = [L] if split == 0 else [L // 2, L - L // 2] if split == 1 else [1012, max(0, L - 1012)]
+                        off = 0
+                        for n in cuts:
+                            n = min(n, L - off)
+                            b.write(data[off:off + n])
+                            off += n
+                        final = finalise(f, b, how)
+                        why = judge(final[h:], data[:L]) if final[:h] == b'H' * h else 'the header bytes were changed'
+                    except Exception as ex:
+                        why = 'exception %r' % ex
+                    acc.transitions += 1
+                    if why:
+                        acc.viol('c04.header.%s' % how, case, why, 'reference blocking of the bytes written after the '
+                                 '%d bytes the file already held' % h)
+    return acc
+
+
 def run(tier, seed):
     global _TIER, _SEED
     _TIER, _SEED = tier, seed
@@ -203,6 +240,9 @@ def run(tier, seed):
     acc, seen = bfs.explore([(init, [])], expand, max_levels=8, max_states=3000)
     top = 3100 if tier == 'quick' else 8200
     for a in core.pmap(oneshot_task, [{'lo': lo, 'hi': min(lo + 100, top + 1)} for lo in range(0, top + 1, 100)]):
+        acc.merge(a)
+    htop = 2100 if tier == 'quick' else 4100
+    for a in core.pmap(header_task, [{'lo': lo, 'hi': min(lo + 50, htop + 1)} for lo in range(0, htop + 1, 50)]):
         acc.merge(a)
     residues = {k[1] for k in seen}
     caps = [acc.counters['bfs_cap_hit']] if 'bfs_cap_hit' in acc.counters else []
@@ -242,6 +282,8 @@ def replay_case(case):
     if 'oneshot' in case:
         a = oneshot_task({'lo': case['oneshot'], 'hi': case['oneshot'] + 1})
         return a
+    if 'header' in case:
+        return header_task({'lo': case['len'], 'hi': case['len'] + 1})
     hist = case['hist']
     if case.get('write') is None:
         f, b, off = build(hist, case['coding'])
